@@ -339,6 +339,13 @@ Rel(x) ==
   /\ \A r \in Reqs : cfg.owner[r] = NONE => reg[r] # x
   /\ Apply(MaybeKill([Cur EXCEPT !.hnd[x] = FALSE], x), C("rel", x, NONE), 0)
 
+\* the application attaches the queue sink to the event loop manager of its thread AGAIN
+\* (upipe_attach_upump_mgr after requests were registered): nothing the statement talks about changes -
+\* in particular the answers still in flight must reach their requesters afterwards
+Attach(p) ==
+  /\ p \in Nodes /\ K(p) = "qsink" /\ hnd[p] /\ alive[p]
+  /\ Apply(Cur, C("attach", p, NONE), 0)
+
 \* one iteration of the event loop of the queue source's thread: the
 \* out-of-band pump pops ONE downstream message
 RunB ==
@@ -392,8 +399,9 @@ ActRequire == \E r \in Reqs : Require(r)
 ActSetOut == \E p \in Nodes, q \in Nodes \cup {NONE} : SetOut(p, q)
 ActProvide == \E s \in Nodes, r \in Reqs : Provide(s, r)
 ActRel == \E x \in Nodes : Rel(x)
+ActAttach == \E p \in Nodes : Attach(p)
 
-Next == ActReg \/ ActUnreg \/ ActRequire \/ ActSetOut \/ ActProvide \/ ActRel \/ RunA \/ RunB
+Next == ActReg \/ ActUnreg \/ ActRequire \/ ActSetOut \/ ActProvide \/ ActRel \/ ActAttach \/ RunA \/ RunB
 
 Spec == Init /\ [][Next]_vars
 
